@@ -97,10 +97,28 @@ Section W.
         firstn k bw ++ snd (boot_p exec prov g (crash_after k (n_disk nd) bw) (n_files nd) (n_log nd))
     end.
 
+  (* the node after one item together with the writes it made: every step is evaluated once (item_step_spec) *)
+  Definition item_step (g : config) (nd : node) (i : fitem) : node * list wr :=
+    match i with
+    | FEv e flt => process_f exec prov nd e flt
+    | FRestart => boot_p exec prov g (n_disk nd) (restart_files nd) (n_log nd)
+    | FCrash e k =>
+        let ws := snd (process_f exec prov nd e None) in
+        let b := boot_p exec prov g (crash_after k (n_disk nd) ws) (n_files nd) (n_log nd) in
+        (fst b, firstn k ws ++ snd b)
+    | FCrashBoot k =>
+        let bw := snd (boot_p exec prov g (n_disk nd) (n_files nd) (n_log nd)) in
+        let b := boot_p exec prov g (crash_after k (n_disk nd) bw) (n_files nd) (n_log nd) in
+        (fst b, firstn k bw ++ snd b)
+    end.
+
+  Lemma item_step_spec g nd i : item_step g nd i = (fstep exec prov g nd i, item_ws g nd i).
+  Proof. destruct i; cbn [item_step fstep item_ws]; try reflexivity; apply surjective_pairing. Qed.
+
   Fixpoint trace (g : config) (nd : node) (h : list fitem) : list (node * list wr) :=
     match h with
     | [] => []
-    | i :: r => let nd' := fstep exec prov g nd i in (nd', item_ws g nd i) :: trace g nd' r
+    | i :: r => let p := item_step g nd i in p :: trace g (fst p) r
     end.
 End W.
 
